@@ -308,10 +308,16 @@ def run_hypothesis(ctx, sub, strategy, prop, max_examples, rounds=3, shrink_budg
             if state['stop']:
                 return
             try:
-                with watchdog(case_timeout):
-                    res = prop(case)
+                try:
+                    with watchdog(case_timeout):
+                        res = prop(case)
+                except CaseTimeout:
+                    # a machine-wide stall (all shards of a thorough run once timed out in the same second on millisecond cases)
+                    # looks like a hang; a real hang times out again
+                    with watchdog(case_timeout):
+                        res = prop(case)
             except CaseTimeout:
-                ctx.harness_error(sub, 'case did not finish within %ds (inconclusive): %s' % (case_timeout, json.dumps(jsonable(case))[:600]))
+                ctx.harness_error(sub, 'case did not finish within %ds, twice (inconclusive): %s' % (case_timeout, json.dumps(jsonable(case))[:1500]))
                 state['stop'] = True
                 return
             except HarnessError as e:
